@@ -22,6 +22,8 @@ import Np.Model.PrintText
 import Np.Model.DivArr
 import Np.Model.ExprPow
 import Np.Model.DType
+import Np.Model.ReduceFns
+import Np.Model.ShapeFns
 /-! line-protocol driver: one JSON case per line on stdin, the model's answer per line on stdout -/
 open Lean Np Np.Shape
 
@@ -360,6 +362,68 @@ def runCase (j : Json) : E Json := do
         | [jj, w] => pure ((← jNat jj), (← parseCoef w))
         | _ => throw "bad weight"
     pure (showArr (linearOp rc rn a shape W))
+  | "reducetable" =>
+    -- numpy's index arithmetic for the reductions, computed by the proved tables of Np/Model/ReduceFns.lean
+    let fn ← (← j.getObjVal? "fn").getStr?
+    let shape ← jNats (← j.getObjVal? "shape")
+    let keep := jBoolD j "keepdims" false
+    let n := ((j.getObjVal? "n").toOption.bind (·.getNat?.toOption)).getD 1
+    let axisJ := (j.getObjVal? "axis").toOption.getD Json.null
+    let showT := fun (r : List Nat × ReduceFns.Table) (den : Nat) =>
+      Json.mkObj [("status", "ok"), ("kind", "table"), ("shape", toJson r.1), ("den", toJson den),
+        ("W", Json.arr (r.2.map fun row => Json.arr (row.map fun pw => Json.arr #[toJson pw.1, toJson pw.2]).toArray).toArray)]
+    let none_ := Json.mkObj [("status", "ok"), ("kind", "none")]
+    let res : Option (List Nat × ReduceFns.Table × Nat) ←
+      match fn, axisJ with
+      | "sum", .null => pure ((ReduceFns.sumAllW shape keep).map fun r => (r.1, r.2, 1))
+      | "sum", .arr _ => do pure ((ReduceFns.sumAxesW shape (← jNats axisJ) keep).map fun r => (r.1, r.2, 1))
+      | "sum", _ => do pure ((ReduceFns.sumAxisW shape (← jNat axisJ) keep).map fun r => (r.1, r.2, 1))
+      | "mean", .null => pure (ReduceFns.meanAllW shape keep)
+      | "mean", .arr _ => do
+        let axes ← jNats axisJ
+        let den := (axes.map fun a => shape.getD a 1).foldl (· * ·) 1
+        pure ((ReduceFns.sumAxesW shape axes keep).map fun r => (r.1, r.2, den))
+      | "mean", _ => do pure (ReduceFns.meanAxisW shape (← jNat axisJ) keep)
+      | "cumsum", .null => pure ((ReduceFns.cumsumFlatW shape).map fun r => (r.1, r.2, 1))
+      | "cumsum", _ => do pure ((ReduceFns.cumsumAxisW shape (← jNat axisJ)).map fun r => (r.1, r.2, 1))
+      | "diff", _ => do pure ((ReduceFns.diffNW shape n (← jNat axisJ)).map fun r => (r.1, r.2, 1))
+      | "ediff1d", _ => pure ((ReduceFns.ediff1dW shape).map fun r => (r.1, r.2, 1))
+      | _, _ => throw s!"unknown reduction {fn}"
+    match res with
+    | some (s, t, d) => pure (showT (s, t) d)
+    | none => pure none_
+  | "prodtable" =>
+    let shape ← jNats (← j.getObjVal? "shape")
+    let keep := jBoolD j "keepdims" false
+    let axis ← jNat (← j.getObjVal? "axis")
+    match ReduceFns.prodAxisGroups shape axis keep with
+    | some (s, g) => pure (Json.mkObj [("status", "ok"), ("kind", "groups"), ("shape", toJson s), ("groups", toJson g)])
+    | none => pure (Json.mkObj [("status", "ok"), ("kind", "none")])
+  | "shapefn" =>
+    -- numpy's index arithmetic for the shape functions, computed by the proved maps of Np/Model/ShapeFns.lean
+    let fn ← (← j.getObjVal? "fn").getStr?
+    let nat := fun (k : String) => do jNat (← j.getObjVal? k)
+    let show1 := fun (r : Option (List Nat × List Nat)) => match r with
+      | some (s, idx) => Json.mkObj [("status", "ok"), ("kind", "gather"), ("shape", toJson s), ("idx", toJson idx)]
+      | none => Json.mkObj [("status", "ok"), ("kind", "none")]
+    let showN := fun (r : Option (List Nat × List (Nat × Nat))) => match r with
+      | some (s, idx) => Json.mkObj [("status", "ok"), ("kind", "gatherN"), ("shape", toJson s),
+          ("idx", Json.arr (idx.map fun p => Json.arr #[toJson p.1, toJson p.2]).toArray)]
+      | none => Json.mkObj [("status", "ok"), ("kind", "none")]
+    match fn with
+    | "transpose" => pure (show1 (ShapeFns.transposeF (← jNats (← j.getObjVal? "shape")) (← jNats (← j.getObjVal? "perm"))))
+    | "moveaxis" => pure (show1 (ShapeFns.moveaxisF (← jNats (← j.getObjVal? "shape")) (← nat "src") (← nat "dst")))
+    | "swapaxes" => pure (show1 (ShapeFns.swapaxesF (← jNats (← j.getObjVal? "shape")) (← nat "a") (← nat "b")))
+    | "expand_dims" => pure (show1 (ShapeFns.expandDimsF (← jNats (← j.getObjVal? "shape")) (← nat "axis")))
+    | "reshape" => pure (show1 (ShapeFns.reshapeF (← jNats (← j.getObjVal? "shape")) (← jNats (← j.getObjVal? "newshape"))))
+    | "repeat" => pure (show1 (ShapeFns.repeatF (← jNats (← j.getObjVal? "shape")) (← nat "k") (← nat "axis")))
+    | "tile" => pure (show1 (ShapeFns.tileF (← jNats (← j.getObjVal? "shape")) (← jNats (← j.getObjVal? "reps"))))
+    | "diagonal" => do
+      let off ← (← j.getObjVal? "offset").getInt?
+      pure (show1 (ShapeFns.diagonalF (← jNats (← j.getObjVal? "shape")) off (← nat "ax1") (← nat "ax2")))
+    | "concatenate" => pure (showN (ShapeFns.concatF (← jNatRows (← j.getObjVal? "shapes")) (← nat "axis")))
+    | "stack" => pure (showN (ShapeFns.stackF (← jNatRows (← j.getObjVal? "shapes")) (← nat "axis")))
+    | _ => throw s!"unknown shape function {fn}"
   | "bilinear" =>
     let a ← parseArr (← j.getObjVal? "a")
     let b ← parseArr (← j.getObjVal? "b")
